@@ -13,7 +13,7 @@ EXTENDS Rp2Ledger, Json
 
 CONSTANTS Slice,    \* name of the alphabet
           MaxTx,    \* bound on the length of a history
-          Mode,     \* "valid": only histories that are covered and never overdrawn; "any": all
+          Mode,     \* "valid": only histories that are covered and never overdrawn; "covered": covered, accounts may be overdrawn; "any": all
           EmitFrom  \* print histories of at least this length (1: all; MaxTx: only complete ones, for -simulate)
 
 VARIABLES hist, ti
@@ -128,10 +128,16 @@ SymP  == {Sy("in", "buy", 1, 0, 1, 11, 0), Sy("in", "buy", 2, 0, 2, 11, 0), Sy("
 InstP == <<At(59, Noon), At(60, Noon - 1), At(60, Noon), At(60, Noon + 1),
            At(424, Noon - 1), At(424, Noon), At(424, Noon + 1), At(425, Noon - 1), At(425, Noon), At(425, Noon + 1)>>
 
-Symbols  == CASE Slice = "P" -> SymP [] Slice = "W" -> SymW [] Slice = "A" -> SymA [] Slice = "B" -> SymB [] Slice = "C" -> SymC [] Slice = "D" -> SymD
+(* O: one account drawn below zero step by step while another account holds enough to cover every disposal (the history *)
+(* never overspends, it only overdraws): purchases on two accounts, unit sales on the first; used with Mode "covered" and  *)
+(* with units below the 1e-10 tolerance, so that single debits stay inside the tolerance and their sum leaves it         *)
+SymO  == {Sy("in", "buy", 3, 0, 1, 21, 0), Sy("in", "buy", 1, 0, 1, 11, 0), Sy("out", "sell", 1, 0, 1, 11, 0)}
+InstO == <<At(100, Noon), At(101, Noon), At(102, Noon)>>
+
+Symbols  == CASE Slice = "O" -> SymO [] Slice = "P" -> SymP [] Slice = "W" -> SymW [] Slice = "A" -> SymA [] Slice = "B" -> SymB [] Slice = "C" -> SymC [] Slice = "D" -> SymD
               [] Slice = "T" -> SymT [] Slice = "M" -> SymM [] Slice = "Y" -> SymY [] Slice = "V" -> SymV
               [] Slice = "F" -> SymF [] Slice = "Z" -> SymZ
-Instants == CASE Slice = "P" -> InstP [] Slice = "W" -> InstW [] Slice = "A" -> InstA [] Slice = "B" -> InstB [] Slice = "C" -> InstC [] Slice = "D" -> InstD
+Instants == CASE Slice = "O" -> InstO [] Slice = "P" -> InstP [] Slice = "W" -> InstW [] Slice = "A" -> InstA [] Slice = "B" -> InstB [] Slice = "C" -> InstC [] Slice = "D" -> InstD
               [] Slice = "T" -> InstT [] Slice = "M" -> InstM [] Slice = "Y" -> InstY [] Slice = "V" -> InstV
               [] Slice = "F" -> InstF [] Slice = "Z" -> InstZ
 Offs     == IF Slice \in {"C", "W", "P"} THEN OffC
@@ -160,6 +166,7 @@ GNext ==
           /\ (s.cls = "intra" => amt > s.fee \/ (amt = s.fee /\ s.fee > 0))
           /\ Mode = "valid" => Valid(h2)
           /\ Mode = "any" => ~SameInstantChain(Expand(h2), 1..Len(Expand(h2)))
+          /\ Mode = "covered" => (Covered(Expand(h2), 1..Len(Expand(h2))) /\ ~SameInstantChain(Expand(h2), 1..Len(Expand(h2))))
           /\ hist' = h2
           /\ ti' = k
 
